@@ -7,6 +7,8 @@ package main
 //	RG <key> <hex>  Read (as op R) over a guarded transport: ok <dump> | err | panic | runaway
 //	                (apache thrift 0.13's Skip ignores read errors inside struct/map loops: on a corrupted input with
 //	                a huge element count it spins for minutes at EOF; the guard gives up after 4096 failed reads)
+//	HH <key> <m1m2> <hex1> <hex2>  HISTORY: one object (NewX()), first message read with m1, second with m2 into the SAME
+//	                object (F = FastRead, R = standard Read): ok <dump> | err1 (first read failed) | err | panic
 //	SK <ttype> <hex>  gopkg thrift.Binary.Skip: ok <n> | err   (n may exceed the input length: that is the point)
 const extraDriver = `package main
 
@@ -113,6 +115,36 @@ func init() {
 			return status
 		}
 		return c10ErrClass(err)
+	}
+	extraOps["HH"] = func(args []string) (out string) {
+		defer func() {
+			if r := recover(); r != nil {
+				out = "panic"
+			}
+		}()
+		e := lookup(args[0])
+		mode := args[1]
+		x := e.ctor()
+		step := func(m byte, b []byte) error {
+			if m == 'F' {
+				_, err := x.(interface {
+					FastRead([]byte) (int, error)
+				}).FastRead(b)
+				return err
+			}
+			buf := thrift.NewTMemoryBuffer()
+			buf.Write(b)
+			return x.(interface {
+				Read(thrift.TProtocol) error
+			}).Read(thrift.NewTBinaryProtocol(&c10Guard{TMemoryBuffer: buf}, true, true))
+		}
+		if err := step(mode[0], hexIn(args[2])); err != nil {
+			return "err1"
+		}
+		if err := step(mode[1], hexIn(args[3])); err != nil {
+			return "err"
+		}
+		return "ok " + e.dumpObj(reflect.ValueOf(x))
 	}
 	extraOps["SK"] = func(args []string) string {
 		t, _ := strconv.Atoi(args[0])
